@@ -38,7 +38,7 @@ C11_STREAMS = [i for i in range(1, 16) if i not in (5, 15)]
 
 def generate(chk, tier):
     thorough = tier != "quick"
-    maxlen = 17 if thorough else 13
+    maxlen = 18 if thorough else 13
     jobs = [
         ("refine-pad", dict(module="MC_EncRefine", constants_text=E.refine_cfg(1, [0, 1], 12, "pad", False), workers=1, want_cases=False)),
         ("refine-fill", dict(module="MC_EncRefine", constants_text=E.refine_cfg(1, [0, 1], 14 if thorough else 12, "fill", False), workers=2, want_cases=False)),
